@@ -426,7 +426,7 @@ def w6_message_text(text: str, report: DropReport, item: str) -> str:
 KEEP_DERIVES = ("PartialEq", "Eq", "Clone", "Copy")
 
 
-def strip_attributes(text: str, report: DropReport, item: str) -> str:
+def strip_attributes(text: str, report: DropReport, item: str, drop_derives: Optional[List[str]] = None) -> str:
     fr = R.Frag(text)
     ct = fr.ct
     cnt = 0
@@ -436,7 +436,9 @@ def strip_attributes(text: str, report: DropReport, item: str) -> str:
             e = R.match_close(ct, i + 1)
             keep = ""
             if ct[i + 2].text == "derive":
-                ds = [t.text for t in ct[i + 3:e] if t.kind == "ident" and t.text in KEEP_DERIVES]
+                ds = [t.text for t in ct[i + 3:e] if t.kind == "ident" and t.text in KEEP_DERIVES and t.text not in (drop_derives or [])]
+                if drop_derives and any(t.text in drop_derives for t in ct[i + 3:e]):
+                    report.add("W0", item, f"derive({', '.join(drop_derives)}) replaced by a trusted impl in prelude.rs (Verus gives an auto-derived impl no contract)")
                 if ds:
                     keep = "#[derive(" + ", ".join(ds) + ")]"
             fr.replace(ct[i].start, ct[e].end, keep)
@@ -829,7 +831,7 @@ class Unit:
             # include the attributes in front of the item so that W0 can keep the derives Verus understands
             raw = src.text[it.attr_start:it.end]
             sha = hashlib.sha256(raw.encode()).hexdigest()
-            text = strip_attributes(raw, self.report, label)
+            text = strip_attributes(raw, self.report, label, icfg.get("drop_derives"))
             if it.kind == "struct" and "keep_fields" in icfg:
                 text = retype_fields(text, icfg["keep_fields"], self.report, label)
             text = apply_token_substs(text, substs, self.report, label)
